@@ -115,8 +115,8 @@ def error_strategy():
     typed_explicit = st.builds(
         lambda n, m, d: {'cls': n, 'code': he.BY_NAME[n].code, 'message': m, 'data': d}, st.sampled_from(he.TYPED), st.one_of(st.none(), message), data,
     )
-    plain = st.one_of(base, base, typed_default, typed_explicit)
-    return st.one_of(plain, plain, plain, plain.map(lambda e: {**e, 'attach': True}))
+    plain = jg.weighted(base, base, typed_default, typed_explicit)
+    return jg.weighted(plain, plain, plain, plain.map(lambda e: {**e, 'attach': True}))
 
 
 def request_strategy(ids=None):
